@@ -863,7 +863,13 @@ struct Driver {
     for (auto& t : p.tool) desc += " " + t;
     Note("tool " + desc + (dry ? " (-n)" : ""));
     // which dyndep files can be loaded (they exist)
-    auto dd_loaded = [&](const Stmt& s) { return !s.dyndep.empty() && w.k.Exists(s.dyndep); };
+    // (loadable: it exists and holds valid dyndep text - a failed producer may have left garbage)
+    auto dd_loaded = [&](const Stmt& s) {
+      if (s.dyndep.empty()) return false;
+      const DyndepFile* dd = w.sc.FindDyndep(s.dyndep);
+      std::string c;
+      return dd && w.k.ReadFile(s.dyndep, &c) && c == w.sc.DyndepText(*dd);
+    };
     std::set<std::string> scope, generator_outs, phony_names;
     for (const Stmt& s : w.sc.stmts) {
       if (!s.alive) continue;
@@ -901,7 +907,8 @@ struct Driver {
     if (r.res.end != ProcResult::kExit) return;
     if (!r.spawns.empty()) w.Report("C18", "clean_out_of_scope", "ninja -t clean started build commands");
     std::set<std::string> removed;
-    for (const Ev& e : r.res.trace) if (e.kind == Ev::kFsRemove) removed.insert(e.s.compare(0, 3, "/w/") == 0 ? e.s.substr(3) : e.s);
+    // (replacing a log by its recompacted copy unlinks it first: log maintenance, not cleaning)
+    for (const Ev& e : r.res.trace) if (e.kind == Ev::kFsRemove && !IsLogPath(e.s)) removed.insert(e.s.compare(0, 3, "/w/") == 0 ? e.s.substr(3) : e.s);
     bool untargeted = mode == 0 || mode == 1 || mode == 4;
     for (auto& pth : removed) {
       if (w.sc.IsSource(pth) || ((pth == "build.ninja" || pth == "sub.ninja") && w.sc.Producer(pth) < 0)) { w.Report("C18", "clean_out_of_scope", desc + " deleted the source file " + pth); continue; }
@@ -945,7 +952,9 @@ struct Driver {
     for (const Stmt& s : w.sc.stmts) {
       if (!s.alive) continue;
       for (auto* v : {&s.outs, &s.imp_outs, &s.ins, &s.imp_ins, &s.oo_ins, &s.validations}) for (auto& x : *v) in_graph.insert(x);
-      if (!s.dyndep.empty() && w.k.Exists(s.dyndep)) if (const DyndepEntry* e = w.sc.DyndepFor(s.id)) { for (auto& x : e->imp_outs) in_graph.insert(x); for (auto& x : e->imp_ins) in_graph.insert(x); }
+      bool loadable = false;
+      if (!s.dyndep.empty()) { const DyndepFile* dd = w.sc.FindDyndep(s.dyndep); std::string c; loadable = dd && w.k.ReadFile(s.dyndep, &c) && c == w.sc.DyndepText(*dd); }
+      if (loadable) if (const DyndepEntry* e = w.sc.DyndepFor(s.id)) { for (auto& x : e->imp_outs) in_graph.insert(x); for (auto& x : e->imp_ins) in_graph.insert(x); }
     }
     std::string lb;
     bool hb = w.k.ReadFile(w.sc.LogDir() + ".ninja_log", &lb);
@@ -959,7 +968,8 @@ struct Driver {
     w.CheckTermination(r);
     if (r.res.end != ProcResult::kExit) return;
     std::set<std::string> removed;
-    for (const Ev& e : r.res.trace) if (e.kind == Ev::kFsRemove) removed.insert(e.s.compare(0, 3, "/w/") == 0 ? e.s.substr(3) : e.s);
+    // (replacing a log by its recompacted copy unlinks it first: log maintenance, not cleaning)
+    for (const Ev& e : r.res.trace) if (e.kind == Ev::kFsRemove && !IsLogPath(e.s)) removed.insert(e.s.compare(0, 3, "/w/") == 0 ? e.s.substr(3) : e.s);
     for (auto& pth : removed) {
       if (w.sc.IsSource(pth) || pth == "build.ninja") w.Report("C18", "clean_out_of_scope", "cleandead deleted the source file " + pth);
       else if (!scope.count(pth)) w.Report("C18", "clean_out_of_scope", "cleandead deleted " + pth + " which is still part of the graph or was never recorded in the build log");
